@@ -208,6 +208,16 @@ class TableCacheWorld:
                 return r["violating"][0]
             return {"status": "ok", "violations": [], "trace": trace, "stats": r["stats"]}
         self._reset_durable_state()
+        # baselines of sequential incarnations (the same sequence of scripts, in one process, under a valid cache) are taken
+        # BEFORE the run starts, on the pristine directory - never between the run's incarnations, whose durable state they
+        # would overwrite
+        for inc in trace["incarnations"]:
+            if inc.get("sequential"):
+                key = core.digest_of(inc["items"])
+                if key not in self.seq_base:
+                    rb = self._incarnate(inc["items"], False, 0, sequential=True)
+                    self.seq_base[key] = dict(zip(inc["items"], rb.get("digests") or []))
+                    self._reset_durable_state()
         log = core.EventLog(keep=keep_events)
         log.add("trace", decided=True, prop="C20", seed=trace.get("seed"), swarm=trace.get("swarm"),
                 incarnations=trace["incarnations"])
@@ -225,16 +235,7 @@ class TableCacheWorld:
             if inc["write_fault"]:
                 ov = ov[:1]           # every constructor regenerates there (0.5 s each)
             seq = bool(inc.get("sequential"))
-            base = self.baseline
-            if seq:
-                key = core.digest_of(inc["items"])
-                if key not in self.seq_base:
-                    # the same sequence of scripts, in one process, under a valid cache
-                    self.set_state("valid")
-                    rb = self._incarnate(inc["items"], False, 0, sequential=True)
-                    self.seq_base[key] = dict(zip(inc["items"], rb.get("digests") or []))
-                    self.set_state(inc["state"])
-                base = self.seq_base[key]
+            base = self.seq_base[core.digest_of(inc["items"])] if seq else self.baseline
             r = self._incarnate(inc["items"], inc["write_fault"], inc.get("hashseed", 0), pyflags=inc.get("pyflags") or (),
                                 crash_at=inc.get("crash_at"), overlaps=ov, sequential=seq)
             stats["incarnations"] += 1
